@@ -212,7 +212,13 @@ func FuzzC06ReadPacket(f *testing.F) {
 	for i := range datas {
 		f.Add(vers[i], datas[i])
 	}
+	giants := 0
 	for _, h := range c06HostileBytes() {
+		if c06ParseHdr(h).lenient > 16<<20 {
+			if giants++; giants > 1 {
+				continue // one seed declaring 256 MiB is enough to start from
+			}
+		}
 		for v := byte(0); v < 3; v++ {
 			f.Add(v, h)
 		}
